@@ -78,6 +78,10 @@ func genC01(t *rapid.T) c1Case {
 			gr := &gg{t: t, uniq: fmt.Sprintf("%s%d%d", strings.ToUpper(n[:1])+n[1:], gi, ti), mlBlock: !c1KnownMLBlock, features: feats}
 			var pieces []script.Piece
 			k := rapid.IntRange(0, 4).Draw(t, "ndecls")
+			if rapid.IntRange(0, 11).Draw(t, "big") == 0 {
+				k = rapid.IntRange(15, 40).Draw(t, "nbig")
+				feats["large-body"] = true
+			}
 			for di := 0; di < k; di++ {
 				text := gr.decls(tk.typ, 1)
 				if rapid.IntRange(0, 3).Draw(t, "withref") == 0 {
@@ -86,7 +90,13 @@ func genC01(t *rapid.T) c1Case {
 					var refs []string
 					body := " \n\n" // snippet.T drops leading newlines of a format; keep a blank line so that gofumpt does not join this var with a preceding lone var
 					for ri := 0; ri < nrefs; ri++ {
-						refs = append(refs, rapid.SampledFrom(c1RefPool).Draw(t, "ref"))
+						ref := rapid.SampledFrom(c1RefPool).Draw(t, "ref")
+						if rapid.IntRange(0, 3).Draw(t, "modlocal") == 0 {
+							// a package of the module itself: gofumpt groups it apart from std only when it knows the module path
+							ref = c.Mod.Path + "/" + rapid.SampledFrom([]string{"internal/util.Helper", "pkg/api.Spec", "types.T"}).Draw(t, "modref")
+							feats["module-local-import"] = true
+						}
+						refs = append(refs, ref)
 						body += fmt.Sprintf("var %s @R%d\n\n", gr.name("ref"), ri)
 					}
 					feats["import"] = true
@@ -160,6 +170,9 @@ func scanTokens(src []byte) (toks []tok, comments string, err error) {
 		}
 		if !t.IsLiteral() && t != token.IDENT {
 			lit = ""
+		}
+		if t == token.INT && legacyOctal.MatchString(lit) {
+			lit = "0o" + lit[1:] // gofumpt spells legacy octal literals with the 0o prefix (go >= 1.13): same value
 		}
 		toks = append(toks, tok{t, lit})
 	}
@@ -268,6 +281,7 @@ func clip(s string, n int) string {
 }
 
 var wordRe = regexp.MustCompile(`[A-Za-z0-9_]`)
+var legacyOctal = regexp.MustCompile(`^0[0-7_]+$`)
 
 func checkCanonical(src []byte, gen, pkgName, rendered, goVersion, modPath string) error {
 	// (1) parses
